@@ -26,10 +26,10 @@ func observe(m *nas.Message) (o plainObs) {
 	switch {
 	case m.GmmMessage != nil:
 		o.gmm = true
-		o.header = append([]byte{}, m.GmmMessage.GmmHeader.Octet[:]...)
+		o.header = hk.Exact(m.GmmMessage.GmmHeader.Octet[:])
 		part = reflect.ValueOf(m.GmmMessage).Elem()
 	case m.GsmMessage != nil:
-		o.header = append([]byte{}, m.GsmMessage.GsmHeader.Octet[:]...)
+		o.header = hk.Exact(m.GsmMessage.GsmHeader.Octet[:])
 		part = reflect.ValueOf(m.GsmMessage).Elem()
 	default:
 		return
@@ -138,7 +138,7 @@ func dispatchCases(r *hk.Run) {
 				rm = nas.NewMessage()
 				reusedMsgs[key] = rm
 			}
-			arg2 := append([]byte{}, in...)
+			arg2 := hk.Exact(in)
 			var err2 error
 			p2, _ := hk.Catch(func() {
 				switch entry {
@@ -257,7 +257,7 @@ func dispatchCases(r *hk.Run) {
 					name = pinnedGsmTypes[uint8(ty)]
 				}
 				if t, ok := tails[name]; ok {
-					in = append([]byte{}, t...)
+					in = hk.Exact(t)
 				} else {
 					in = []byte{0, 0, 0, 0, 0, 0, 0, 0}
 				}
@@ -282,6 +282,7 @@ func dispatchCases(r *hk.Run) {
 		var out []byte
 		var err error
 		panicked, _ := hk.Catch(func() { out, err = m.PlainNasEncode() })
+		r.Retain("nas.PlainNasEncode", pm.coq(), out) // the encoding belongs to the caller: a later encode must not change it
 		cls, obs := "ok", "EOk "+hk.CoqBytes(out)
 		switch {
 		case panicked:
